@@ -21,7 +21,7 @@ def register(R):
             m = c.post.m(r_of(c.rt))
             out = [('result-is-new-dict', z3.And(is_ref(c.rt), r_of(c.rt) < 0)),
                    ('C04+C15+C19.child-inherits-delete', z3.And(m.has(mk_str('implicit_delete')), m.get(mk_str('implicit_delete')) == S.inh_delete(c.eng, c.pre, s))),
-                   ('C08+C19.child-inherits-allow_new', z3.And(m.has(mk_str('implicit_allow_new')), m.get(mk_str('implicit_allow_new')) == S.inh_allow_new(c.pre, s)))]
+                   ('C06+C08+C19.child-inherits-allow_new', z3.And(m.has(mk_str('implicit_allow_new')), m.get(mk_str('implicit_allow_new')) == S.inh_allow_new(c.pre, s)))]
             if with_child:
                 ch = c.ref('child')
                 keep = c.pre.get('_implicit_safe', ch) == FALSE
@@ -33,11 +33,11 @@ def register(R):
         return ens
 
     R.add(Contract(C + 'ComposedNode._get_child_kwargs', [comp(), P.const('child', None)], name='no-child',
-                   requires=lambda c: S.valid_flags(c.pre, c.ref('self')), pure=True, props=('C04', 'C07', 'C08', 'C15', 'C19'),
+                   requires=lambda c: S.valid_flags(c.pre, c.ref('self')), pure=True, props=('C04', 'C06', 'C07', 'C08', 'C15', 'C19'),
                    ensures=[('inherit', gck_ens(False))], opts={'verify_only': True}))
     R.add(Contract(C + 'ComposedNode._get_child_kwargs', [comp(), P.node('child', 'ConfigNode')], name='with-child',
                    requires=lambda c: z3.And(S.valid_flags(c.pre, c.ref('self')), S.valid_flags(c.pre, c.ref('child'))), pure=True,
-                   props=('C04', 'C07', 'C08', 'C15', 'C19'), ensures=[('inherit', gck_ens(True))], opts={'verify_only': True}))
+                   props=('C04', 'C06', 'C07', 'C08', 'C15', 'C19'), ensures=[('inherit', gck_ens(True))], opts={'verify_only': True}))
 
     # ---- _propagate_implicit_values -----------------------------------------------------------
     def piv_req(c):
